@@ -48,6 +48,11 @@ def words_and_labels_bounded(seed):
             return '\\foreignlanguage{german}{%s} ' % words(2, 'german')
         if kind == 'Fl':
             return '\\foreignlanguage{french}{%s} ' % words(5, 'french')
+        if kind == 'Fm':
+            # a long insertion that ends with a known macro without
+            # arguments: the closing switch follows the macro directly
+            return '\\foreignlanguage{french}{%s \\LaTeX} ' % words(
+                5, 'french')
         if kind == 'Sde':
             stack[-1] = 'german'
             return '\n\\selectlanguage{german}\n'
@@ -73,7 +78,7 @@ def words_and_labels_bounded(seed):
                                            words(2, stack[-1]))
         if kind == 'P':
             return '\n\n'
-    kinds = ['W', 'Fs', 'Fl', 'Sde', 'Sen', 'O', 'OO', 'On', 'FN', 'P']
+    kinds = ['W', 'Fs', 'Fl', 'Sde', 'Sen', 'O', 'OO', 'On', 'FN', 'P', 'Fm']
     n, fails = 0, []
     for ln in range(1, 5):
         for combo in itertools.product(kinds, repeat=ln):
@@ -129,7 +134,7 @@ def words_and_labels_bounded(seed):
     return {'name': 'every-word-in-one-part-of-its-language',
             'bounded': True,
             'bound': 'all documents of 1-2 pieces, a 4th of those with 3 '
-                     'and a 60th of those with 4 pieces over 10 piece kinds',
+                     'and a 60th of those with 4 pieces over 11 piece kinds',
             'evaluations': n, 'failures': fails}
 
 
